@@ -15,7 +15,7 @@ func (p *Pool) Send(ctx context.Context, e Event) {
 	defer p.sendWg.Done()
 
 	verifhook.At("wpool.send.check")
-	if p.ctx.Err() != nil {
+	if p.ctx == nil || p.ctx.Err() != nil {
 		return
 	}
 
